@@ -23,8 +23,6 @@ from . import c13
 BES = ["fft64ref", "ntt120ref", "fft64avx", "ntt120avx"]
 CORES = os.cpu_count() or 16
 
-KEY_ZERO_BDD = "execute_bdd_circuit_multi_thread:output_size=0"
-KEY_ZERO_PREP = "fhe_uint_prepare_custom_multi_thread:bit_count=0"
 KEY_SPLIT = "split_mut:len%64!=0"
 
 
@@ -81,8 +79,6 @@ def run(ctx):
         ctx.violation("C20 machinery does not build", {"broken": broken}, False)
         return ctx.finish(rule="n/a")
 
-    known_zero_bdd = []
-    known_zero_prep = []
     known_split = []
 
     # ------------------------------------------------------------------ A. part
@@ -143,9 +139,9 @@ def run(ctx):
             else:
                 model = (mt[1],)
             hist[impl_head] = hist.get(impl_head, 0) + 1
-            admissible = c["items"] >= 1 and c["threads"] >= 1 and c["outlen"] >= c["items"] and c["circin"] <= 64 and c["scratch"] == "full"
+            admissible = c["threads"] >= 1 and c["outlen"] >= max(c["items"], 1) and c["circin"] <= 64 and c["scratch"] == "full"
             ctx.count_case(("part", c["be"], min(c["items"], 3), "div" if c["threads"] and c["items"] % c["threads"] == 0 else "nondiv",
-                            "gt" if c["threads"] > c["items"] else "le", impl_head, c["perturb"]), nontrivial=c["items"] > 0)
+                            "gt" if c["threads"] > c["items"] else "le", impl_head, c["perturb"]), nontrivial=True)
             if impl != model:
                 ctx.disagreements += 1
                 if len(broken) < 20:
@@ -164,10 +160,6 @@ def run(ctx):
                     want = [w if w is not None else "z" for w in want]
                     if acts != want:
                         bad = f"slot table {acts} differs from the partition oracle {want}"
-            elif c["items"] == 0 and c["threads"] >= 1 and c["outlen"] >= 1 and c["circin"] <= 64 and c["scratch"] == "full":
-                # a circuit without outputs: nothing to compute, every slot zeroed — the code panics in chunks_mut(0)
-                if impl_head != "ok":
-                    known_zero_bdd.append({"line": lines[k], "implementation": outl[k]})
             if bad:
                 ctx.oracle_failures += 1
                 witness = witness or {"kind": "part", "line": lines[k], "implementation": outl[k], "why": bad}
@@ -355,8 +347,6 @@ def run(ctx):
                     if res.split(":")[2] != want:
                         ctx.oracle_failures += 1
                         witness = witness or {"kind": "prep", "line": lines[k], "threads": th, "implementation": res, "want": want}
-                elif c == 0 and res == "panic:assert":
-                    known_zero_prep.append({"line": lines[k], "threads": th, "implementation": res})
                 elif mode == "exact" and res == "panic:scratch":
                     known_split.append({"line": lines[k], "threads": th, "implementation": res})
                 else:
@@ -368,22 +358,13 @@ def run(ctx):
         ctx.samples.append({"request": lines[1][:200], "implementation": outl[1][:300]})
 
     # ------------------------------------------------------------------ known findings (model agrees with the code; the property does not)
-    if known_zero_bdd:
-        ctx.violation("execute_bdd_circuit_multi_thread panics (chunks_mut(0)) for a circuit with output_size = 0 instead of zeroing the outputs",
-                      {"witness": known_zero_bdd[0], "count": len(known_zero_bdd), "theorem": "C20.zero_items_panics",
-                       "rerun": "printf '1 part be=fft64ref items=0 outlen=3 threads=2\\n' | harness/target/release/pvh threads"}, True, key=KEY_ZERO_BDD)
-    if known_zero_prep:
-        ctx.violation("fhe_uint_prepare_custom(_multi_thread) panics (chunks_mut(0)) for bit_count = 0 instead of zeroing every bit",
-                      {"witness": known_zero_prep[0], "count": len(known_zero_prep), "theorem": "C20.prepare_zero_count_counterexample",
-                       "rerun": "printf '1 prep be=fft64ref ty=u8 value=165 start=2 count=0 threads=1,2\\n' | harness/target/release/pvh threads"},
-                      True, key=KEY_ZERO_PREP)
     if known_split:
         ctx.violation("Scratch::split_mut panics inside take_slice_aligned although available() >= n*len when len is not a multiple of 64: "
                       "prepare_custom_multi_thread with the documented threads*fhe_uint_prepare_tmp_bytes scratch fails for threads >= 2 (works for 1)",
                       {"witness": known_split[0], "count": len(known_split), "theorem": "C20.split_mut_counterexample",
                        "rerun": "printf '1 prep be=fft64ref ty=u8 value=165 start=1 count=6 threads=1,2 scratch=exact\\n' | harness/target/release/pvh threads"},
                       True, key=KEY_SPLIT)
-    ctx.cov["known_finding_occurrences"] = {KEY_ZERO_BDD: len(known_zero_bdd), KEY_ZERO_PREP: len(known_zero_prep), KEY_SPLIT: len(known_split)}
+    ctx.cov["known_finding_occurrences"] = {KEY_SPLIT: len(known_split)}
 
     # ------------------------------------------------------------------ verdict
     if broken or witness:
